@@ -95,15 +95,46 @@ func writeDigests(path string, m map[uint64]struct{}) error {
 	return os.WriteFile(path, buf, 0o644)
 }
 
-func readDigests(path string, into map[uint64]struct{}) error {
+// digestSet counts distinct digests over the workers' sorted files without a map (a deep tier
+// produces hundreds of millions of them; as map entries they would need tens of gigabytes).
+type digestSet struct{ runs [][]uint64 }
+
+func readDigests(path string, into *digestSet) error {
 	b, err := os.ReadFile(path)
 	if err != nil {
 		return err
 	}
+	run := make([]uint64, 0, len(b)/8)
 	for i := 0; i+8 <= len(b); i += 8 {
-		into[binary.LittleEndian.Uint64(b[i:])] = struct{}{}
+		run = append(run, binary.LittleEndian.Uint64(b[i:]))
 	}
+	into.runs = append(into.runs, run)
 	return nil
+}
+
+// count merges the sorted runs and counts distinct values.
+func (d *digestSet) count() int {
+	idx := make([]int, len(d.runs))
+	n := 0
+	var last uint64
+	first := true
+	for {
+		best := -1
+		for i, r := range d.runs {
+			if idx[i] < len(r) && (best < 0 || r[idx[i]] < d.runs[best][idx[best]]) {
+				best = i
+			}
+		}
+		if best < 0 {
+			return n
+		}
+		v := d.runs[best][idx[best]]
+		idx[best]++
+		if first || v != last {
+			n++
+			last, first = v, false
+		}
+	}
 }
 
 // announce file: the worker records the choice vector it is about to execute so
@@ -350,8 +381,7 @@ func RunCheck(id, tier, verifDir, self string) int {
 	}
 	wg.Wait()
 
-	states := map[uint64]struct{}{}
-	nontriv := map[uint64]struct{}{}
+	statesSet, nontrivSet := &digestSet{}, &digestSet{}
 	var tot workerOut
 	tot.Exhaustive = true
 	tot.Skipped = map[string]int64{}
@@ -400,8 +430,8 @@ func RunCheck(id, tier, verifDir, self string) int {
 			continue
 		}
 		base := filepath.Join(scratch, fmt.Sprintf("w%d", i))
-		readDigests(base+".states", states)
-		readDigests(base+".nontriv", nontriv)
+		readDigests(base+".states", statesSet)
+		readDigests(base+".nontriv", nontrivSet)
 		o := r.out
 		tot.Execs += o.Execs
 		tot.Transitions += o.Transitions
@@ -433,6 +463,8 @@ func RunCheck(id, tier, verifDir, self string) int {
 		viols = append(viols, o.Violations...)
 	}
 
+	nStates, nNontriv := statesSet.count(), nontrivSet.count()
+	statesSet, nontrivSet = nil, nil
 	cov := map[string]interface{}{}
 	if ck.Post != nil {
 		extra, err := ck.Post(tier, scratch, cov)
@@ -530,10 +562,10 @@ func RunCheck(id, tier, verifDir, self string) int {
 		ss = append(ss, "(no sample captured)")
 	}
 	cov["evaluations"] = tot.Execs
-	cov["distinct_nontrivial"] = len(nontriv)
+	cov["distinct_nontrivial"] = nNontriv
 	cov["rule"] = ck.Rule
 	cov["samples"] = ss
-	cov["states"] = len(states)
+	cov["states"] = nStates
 	cov["transitions"] = tot.Transitions + tot.Points
 	cov["api_calls_on_implementation"] = tot.Transitions
 	cov["choice_edges"] = tot.Points
@@ -570,7 +602,7 @@ func RunCheck(id, tier, verifDir, self string) int {
 		return 2
 	}
 	fmt.Printf("%s %s: executions=%d states=%d nontrivial=%d transitions=%d failing=%d new=%d known=%d exhaustive=%v wall=%.1fs\n",
-		id, tier, tot.Execs, len(states), len(nontriv), tot.Transitions+tot.Points, tot.Failing, len(fresh), len(knownList), cov["exhaustive"], time.Since(start).Seconds())
+		id, tier, tot.Execs, nStates, nNontriv, tot.Transitions+tot.Points, tot.Failing, len(fresh), len(knownList), cov["exhaustive"], time.Since(start).Seconds())
 	return exit
 }
 
